@@ -109,6 +109,7 @@ def system_case(draw, tier):
                                            "x", "100 ns, 25 \u00b0C, box in \u00c5", "[ system ] ; not a comment, 1.5"])),
             "scale": draw(st.one_of(st.just(0.5), st.just(1.0), st.floats(0.05, 2.0))),
             "align": draw(st.booleans()), "attach": draw(st.sampled_from(["add_end", "setattr", "from_files"])),
+            "restart": draw(st.integers(0, 3)) == 0,
             "seed": draw(gen.SEEDS), "error_path": draw(st.sampled_from([None, None, None, "before-maps", "partial-maps",
                                                                            "no-complete"])),
             "system_route": draw(st.sampled_from(["from_files", "from_files", "incremental", "empty-then-add"]))}
@@ -178,6 +179,17 @@ def check(case):
         Alignment.STEPS_FACTOR = old_steps
 
 
+def read_output(path):
+    """The written system through the harness' own reader; a file it cannot read is not a coordinate file."""
+    try:
+        return indep.read_gro(path)
+    except Exception as exc:      # noqa: BLE001
+        with open(path, errors="replace") as f:
+            head = f.read(200)
+        raise PropertyViolation("output-format", "the written file is not a readable .gro file (%s: %s); it starts with %r"
+                                % (type(exc).__name__, exc, head), cls="output-format")
+
+
 def _attach(man, case, nm, species):
     espec = species[nm]["end"]
     if case["attach"] == "from_files":
@@ -193,6 +205,11 @@ def _attach(man, case, nm, species):
         man.molecule_correspondence[nm].end = end
     else:
         lib("add-end", man.add_end_molecule, end)
+    if case.get("restart"):
+        # the start molecule is re-assigned with an equal molecule that was built on its own (another topology object),
+        # e.g. a pre-aligned conformation loaded from its own files
+        sspec = species[nm]["start"]
+        man.molecule_correspondence[nm].start = build_molecule(sspec)
 
 
 def _expect_error(fn, out, what):
@@ -242,7 +259,7 @@ def _run(case, species, specs, instances, gro, itp, out):
         _expect_error(man.extrapolate_system, out, "partial-maps: a complete species has no exchange map yet")
         lib("maps", man.calculate_exchange_maps, case["scale"])
     lib("extrapolate", man.extrapolate_system, out)
-    res = indep.read_gro(out)
+    res = read_output(out)
     s = case["scale"]
     # ---- header
     if res["title"].rstrip() != case["title"].rstrip():
@@ -310,7 +327,7 @@ def _run(case, species, specs, instances, gro, itp, out):
     big = any(len(c) >= 3 for nm, c, _ in exp_blocks)
     return {"nontrivial": interleaved and skipped and big,
             "classes": ["aligned" if case["align"] else "not-aligned", "box:" + case["box_kind"],
-                        "attach:" + case["attach"], "small-start" if small else "no-small-start",
+                        "attach:" + case["attach"], "start:" + ("re-assigned" if case.get("restart") else "from-system"), "small-start" if small else "no-small-start",
                         "error:" + str(ep), "interleaved" if interleaved else "blocks",
                         "system:" + case.get("system_route", "from_files")],
             "sample": {"sequence": case["sequence"], "with_end": case["with_end"], "load": case["load"],
@@ -345,7 +362,7 @@ def check_shipped(case):
     finally:
         Alignment.STEPS_FACTOR = old
     inp = indep.read_gro(f("system_bmimbf4_cg.gro"))
-    res = indep.read_gro(out)
+    res = read_output(out)
     if res["title"].rstrip() != inp["title"].rstrip() or not np.abs(res["box"] - inp["box"]).max() <= 5e-6:
         raise PropertyViolation("header", "title/box differ: %r %r" % (res["title"], res["box"].tolist()))
     ends = {nm: indep.read_gro(f(nm + "_AA.gro"))["records"] for nm in case["ends"]}
@@ -426,7 +443,7 @@ def check_large(case):
     lib("maps", man.calculate_exchange_maps, 0.8)
     out = env.fresh_path(".gro")
     lib("extrapolate", man.extrapolate_system, out)
-    res = indep.read_gro(out)
+    res = read_output(out)
     recs = res["records"]
     exp_n = sum(4 if nm == "LA" else 3 for nm, _, _ in inst)
     if len(recs) != exp_n or res["natoms"] != exp_n:
@@ -510,7 +527,7 @@ def check_runs(case):
     lib("maps", man.calculate_exchange_maps, 0.7)
     out = env.fresh_path(".gro")
     lib("extrapolate", man.extrapolate_system, out)
-    recs = indep.read_gro(out)["records"]
+    recs = read_output(out)["records"]
     exp_n = sum(sum(sizes_e) if nm == "DIM" else 2 for nm, _, _ in inst)
     if len(recs) != exp_n:
         raise PropertyViolation("atom-count", "run of %d: %d atoms written, expected %d" % (case["run"], len(recs), exp_n))
